@@ -1,4 +1,11 @@
-"""C19 — every piece of story content is addressable by its own path."""
+"""C19 — every piece of story content is addressable by its own path.
+
+Parts: path text/eq/hash (model Data/Path.v vs --pathops), the content-audit hook over the corpus, the
+tree model's audit listing (c19_tree.py), and — since the property quantifies over EVERY loaded story —
+documents outside what the compilers emit (c19_docs.py: synthesised and mutated story documents with
+competing / index-like / empty / dotted names and deep nesting, on both loader builds: audit, model
+listing, choices lead to their own branch, reported paths are usable by choose_path_string, the future
+after save + load equals the future without it, engine model transcript)."""
 import json, os, re
 import vlib, gen_tables
 from props import common
@@ -178,13 +185,49 @@ def run(ctx):
         afails += tree["fails"]
     except Exception as e:       # a broken model build is reported as a correspondence failure
         mismatches.append(dict(op="tree-audit-model-does-not-evaluate", err=str(e)[-400:]))
+    # documents that load but are outside the compilers' output (both loader builds)
+    docs = dict(fails=[], mismatches=[], outside={}, nobj=0, ndocs=0, nplay=0)
+    try:
+        from props import c19_docs
+        exe_stream = vlib.build_harness(features=("stream",))
+        docs = c19_docs.run_docs(ctx, exe, exe_stream)
+        docs["fails"].sort(key=lambda f: len(json.dumps(f.get("doc"))))
+        afails += docs["fails"]
+        for m in docs["mismatches"][:3]:
+            mismatches.append(dict(m, op=m.get("op", "document-audit")))
+        known = {k["key"] for k in vlib.known_findings().get("known", []) if k.get("property") == "C19"}
+        single = {}
+        for cls, ex in sorted(docs["outside"].items()):
+            hz, kind = cls.rsplit(":", 1)
+            if "+" not in hz:
+                single.setdefault(hz, dict(kinds=[], example=ex.get("story"), doc=ex.get("doc")))["kinds"].append(kind)
+        for hz, info in single.items():
+            key = "outside-wf:" + hz
+            what = ("hand-written document outside the hypothesis wf_tree (%s): %s — the model predicts the same; "
+                    "e.g. %s" % (hz, ", ".join(sorted(set(info["kinds"]))), info["example"]))
+            if key in known:
+                ctx.violation(what, dict(doc=info["doc"]), key=key)
+            else:
+                ctx.notes.append(what + "  [key %s]" % key)
+        docs["outside_single"] = {k: dict(kinds=sorted(set(v["kinds"])), example=v["example"], doc=v["doc"]) for k, v in single.items()}
+    except Exception as e:
+        mismatches.append(dict(op="document-audit-does-not-run", err=str(e)[-400:]))
+    ctx.coverage.update(dict(
+        documents=dict(generated=docs.get("ndocs"), loaded_runs=docs.get("loaded"), rejected_runs=docs.get("rejected"),
+                       audited_objects=docs.get("nobj"), play_cases=docs.get("nplay"), engine=docs.get("engine"),
+                       hazard_free=docs.get("hazard_free"), hazards=docs.get("hazards"), features=docs.get("features"),
+                       model_listings=docs.get("model_docs"), wf_tree_true=docs.get("wf_true"),
+                       wf_vs_hazards=docs.get("wf_vs_hazards"), timing=docs.get("timing"),
+                       outside_hypothesis=docs.get("outside_single"))))
+    nobj += docs.get("nobj") or 0
     ctx.coverage.update(dict(
         evaluations=len(ops) + nevals + nobj, distinct_nontrivial=len(set(strings)) + nobj,
         rule="path strings from a component alphabet (names, ^, empty, numerals with leading zeros/+, "
              "overflowing numerals, non-ASCII) x rt/eqh/app ops compared model vs implementation; "
-             "plus one audit line per runtime object of every corpus story (reference- and self-compiled)",
+             "plus one audit line per runtime object of every corpus story (reference- and self-compiled) and of "
+             "generated story documents outside the compilers' output (see coverage.documents)",
         samples=[ops[0], ops[1], ops[len(strings)], dict(audited_objects=nobj, stories=nstories)],
-        traces_validated_against_impl=len(ops) + tree["nobj"], correspondence_mismatches=len(mismatches),
+        traces_validated_against_impl=len(ops) + tree["nobj"] + (docs.get("nplay") or 0), correspondence_mismatches=len(mismatches),
         tree_model_objects=tree["nobj"], tree_model_stories=tree["nstories"], wf_tree_false=tree["wf_false"][:5]))
 
     allfails = fails + afails
@@ -193,7 +236,7 @@ def run(ctx):
         for f in allfails:
             by.setdefault(f["kind"], f)
         for kind, f in by.items():
-            ctx.violation(f"{kind}: {json.dumps(f, ensure_ascii=False)[:300]}", f, key=kind)
+            ctx.violation(f"{kind}: {json.dumps(f, ensure_ascii=False)[:600]}", f, key=kind)
     elif not pr["ok"]:
         ctx.violation("theorem no longer checks: " + pr["failed"][:400],
                       dict(theorem_file="theories/Props/C19.v", error=pr["failed"]), no_input=True)
@@ -205,6 +248,10 @@ def run(ctx):
 def replay(ctx, payload):
     exe = vlib.build_harness()
     r = payload.get("replay", {})
+    if isinstance(r.get("doc"), dict):
+        from props import c19_docs
+        for f in c19_docs.replay_doc(exe, vlib.build_harness(features=("stream",)), r["doc"]):
+            ctx.violation(f"{f['kind']}: {json.dumps(f, ensure_ascii=False)[:600]}", f, key=f["kind"])
     s = r.get("input") or r.get("a")
     if s is not None:
         fails, _ = property_oracle(exe, [s, r.get("b", s)])
